@@ -11,6 +11,8 @@ images) backwards from |0..0>, yields a valid Clifford tableau whose signed stab
 independent Python canonicaliser; for n <= 5 additionally against a dense simulation of the gate list); (c) the Clifford tableaux
 built by `clifford_from_stabilizer` / `get_clifford_tableau_from_graph` are valid and represent the same state.
 """
+import os
+
 import numpy as np
 
 from harness import stabutil as su
@@ -475,6 +477,22 @@ def search(ctx, res, proof_broken):
         flush(res, drv, pending)
         if res.violations:
             break
+    # a pivot-choice slip of inverse_circuit can agree with the property on every state of <= 4 qubits and fail on about one
+    # random state in a thousand from n = 5 on (seed C11-r3m1: unfiltered z_list[0]): when the correspondence is broken and the
+    # small states all pass, keep drawing larger states (generic and low-X-rank, re-gauged) until the oracle fails or the budget ends
+    big = int(os.environ.get("VERIF_C11_SEARCH", "6000"))
+    k = 0
+    while not res.violations and k < big:
+        for _ in range(250):
+            n = ctx.rng.randrange(4, 9)
+            mk = low_x_rank_state if k % 2 else su.random_state
+            with impl_guard(res, "inverse_circuit:search-big", promise=True):
+                st = mk(ctx.rng, n).to_stabilizer()
+                if k % 3 == 0:
+                    st = su.regauge_stab(st, ctx.rng)
+                check_one(res, drv, st, f"search-big-n{n}", pending)
+            k += 1
+        flush(res, drv, pending)
     drv.close()
 
 
